@@ -17,6 +17,11 @@ theorem gen_constants :
     Gen.Advertise.maxInitialAdv = 3 ∧ Gen.Advertise.maxInitialAdvInterval = 16 * second := by
   decide
 
+/-- The multicast loop waits on a fresh `time.After` timer for every wait (regenerated structural
+    fact): a timer kept across waits or incarnations could deliver a stale tick, which the
+    virtual-time scenarios (asynctimerchan=0, required by testing/synctest) cannot exhibit. -/
+theorem gen_multicastWaitsOnFreshTimer : Gen.Advertise.multicastWaitsOnFreshTimer = true := by decide
+
 /-- For non-negative `d`, Go's `Round(1s)` is the nearest whole second (half rounds up). -/
 theorem round_spec (d : Dur) (hd : 0 ≤ d) :
     roundDur d second % second = 0 ∧ 2 * (d - roundDur d second) < second ∧
